@@ -4,6 +4,7 @@ package main
 
 import (
 	"fmt"
+	"go/token"
 	"strings"
 
 	"golang.org/x/tools/go/ssa"
@@ -32,12 +33,14 @@ func (w *World) guardProtectsSuccess(fn *ssa.Function, match func(string) bool) 
 }
 
 func checkC16(w *World, r *Report) {
-	r.Explanation = "Structural clause of C16: (F-1) commonValidation0 rejects a gas price different from the governance gas price (equality, both directions) and a fee gas x price below the governance minimum fee, the contract validation rejects gas below the intrinsic gas of the payload, each guard lying on every path to a success return, and the governance handler of every context is the node's governance controller; (F-2) the routing decision table (C04 N-3) shows every natively executed transaction is debited exactly gas-limit x price once and reports GasUsed = gas limit; (F-3) on the EVM route the transaction's gas limit and the governance gas price reach the EVM message unchanged and GasUsed is the execution result's UsedGas; (F-4) deliverTxSync adds GasToFee(GasUsed, governance price) to the block's fee sum only on the success branch, the fee sum starts at zero in a context created afresh in BeginBlock, has a closed set of writers, and AcctCtrler.EndBlock credits exactly SumFee() to the header's proposer address in the consensus overlay."
+	r.Explanation = "Structural clause of C16: (F-1) commonValidation0 rejects a gas price different from the governance gas price (equality, both directions) and a fee gas x price below the governance minimum fee, the contract validation rejects gas below the intrinsic gas of the payload, each guard lying on every path to a success return, and the governance handler of every context is the node's governance controller; (F-2) the routing decision table (C04 N-3) shows every natively executed transaction is debited exactly gas-limit x price once and reports GasUsed = gas limit; (F-3) on the EVM route the transaction's gas limit and the governance gas price reach the EVM message unchanged and GasUsed is the execution result's UsedGas; (F-4) deliverTxSync adds GasToFee(GasUsed, governance price) to the block's fee sum only on the success branch, the fee sum starts at zero in a context created afresh in BeginBlock, has a closed set of writers, and AcctCtrler.EndBlock credits exactly SumFee() to the header's proposer address in the consensus overlay. (F-5) the fee of a contract transaction is credited to the proposer once, by EndBlock: the EVM itself pays nothing to the coinbase — every EVM is created with NoBaseFee and every message carries fee cap = tip cap = 0 (constants), the combination under which go-ethereum's state transition skips the coinbase payment."
 	r.NotCovered = "UsedGas <= gas limit and gas purchase/refund inside go-ethereum; sums over a block as numbers; blocks without a proposer address."
 	f1(w, r)
 	routingTable(w, r, "F-2")
 	f3(w, r)
 	f4(w, r)
+	f5(w, r)
+	r.Floor("F-5", 3, "the EVM pays no fee to the coinbase")
 	r.Floor("F-1", 6, "admission guards")
 	r.Floor("F-2", 18, "decision table rows")
 	r.Floor("F-3", 4, "EVM charge")
@@ -328,4 +331,138 @@ func f4(w *World, r *Report) {
 		}
 		r.Check(ok, "F-4", "RigoApp.EndBlock:account-endblock", "the account controller's EndBlock runs once per block on the executing block's context", "RigoApp.EndBlock does not run the account controller's EndBlock on the executing block's context", fnSite(w, ae))
 	}
+}
+
+// f5 — go-ethereum v1.10 credits gasUsed x effectiveTip to the block's coinbase at
+// the end of TransitionDb unless the EVM was configured with NoBaseFee and the
+// message's fee cap and tip cap are both zero. The node credits the proposer
+// itself in EndBlock, so the EVM must stay in that mode.
+func f5(w *World, r *Report) {
+	em := needFn(r, "F-5", w, fref{"ctrlers/vm/evm", "", "evmMessage"})
+	if em != nil {
+		cs := w.callsTo(em, fref{"github.com/ethereum/go-ethereum/core/types", "", "NewMessage"})
+		ok := len(cs) == 1
+		why := ""
+		if ok {
+			a := cs[0].Common().Args
+			for _, i := range []int{6, 7} {
+				if i >= len(a) || !w.isZeroBig(a[i]) {
+					ok = false
+					why = "argument " + w.Canon(a[i]) + " is not a constant zero"
+				}
+			}
+		}
+		r.Check(ok, "F-5", "evmMessage:zero-fee-caps", "every EVM message carries gasFeeCap = gasTipCap = 0 (constants never written after initialisation)", "the EVM message's fee cap / tip cap are not constant zero: go-ethereum would credit the fee to the coinbase in addition to the proposer credit in EndBlock ("+why+")", fnSite(w, em))
+	}
+	n := 0
+	for _, fn := range w.ModuleFuncs() {
+		for _, c := range w.callsTo(fn, fref{"github.com/ethereum/go-ethereum/core/vm", "", "NewEVM"}) {
+			n++
+			a := c.Common().Args
+			ok := false
+			if len(a) == 5 {
+				ok = w.configHasNoBaseFee(a[4])
+			}
+			r.Check(ok, "F-5", "NewEVM:NoBaseFee:"+w.FName(fn), "the EVM is created with NoBaseFee: true", "an EVM is created without NoBaseFee: the state transition would charge a base fee and pay the coinbase", site(w, c))
+		}
+	}
+	if n < 2 {
+		r.Undecided("F-5", "NewEVM:sites", fmt.Sprintf("%d vm.NewEVM call(s) found, 2 expected (block execution and read-only call)", n))
+	}
+}
+
+// isZeroBig: v is X.ToBig() / big.NewInt(0) where X is a package-level uint256
+// initialised to NewInt(0) and never stored to again, or a literal zero.
+func (w *World) isZeroBig(v ssa.Value) bool {
+	c, ok := stripConv(v).(*ssa.Call)
+	if !ok {
+		return false
+	}
+	cc := c.Common()
+	f := cc.StaticCallee()
+	if f == nil || f.Pkg == nil {
+		return false
+	}
+	switch {
+	case f.Pkg.Pkg.Path() == "math/big" && f.Name() == "NewInt" && len(cc.Args) == 1:
+		k, isC := constInt(cc.Args[0])
+		return isC && k == 0
+	case f.Pkg.Pkg.Path() == "github.com/holiman/uint256" && f.Name() == "ToBig" && len(cc.Args) == 1:
+		ld, ok := stripConv(cc.Args[0]).(*ssa.UnOp)
+		if !ok || ld.Op != token.MUL {
+			return false
+		}
+		g, ok := ld.X.(*ssa.Global)
+		if !ok {
+			return false
+		}
+		// every store to the global, anywhere in the module, is NewInt(0) in the package initialiser
+		n := 0
+		fns := append([]*ssa.Function(nil), w.ModuleFuncs()...)
+		if g.Pkg != nil {
+			if ini := g.Pkg.Func("init"); ini != nil {
+				fns = append(fns, ini)
+			}
+		}
+		for _, fn := range fns {
+			for _, b := range fn.Blocks {
+				for _, in := range b.Instrs {
+					st, isS := in.(*ssa.Store)
+					if !isS || st.Addr != ssa.Value(g) {
+						continue
+					}
+					n++
+					call, isCall := stripConv(st.Val).(*ssa.Call)
+					if !isCall || fn.Name() != "init" {
+						return false
+					}
+					cf := call.Common().StaticCallee()
+					if cf == nil || cf.Name() != "NewInt" || len(call.Common().Args) != 1 {
+						return false
+					}
+					if k, isC := constInt(call.Common().Args[0]); !isC || k != 0 {
+						return false
+					}
+				}
+			}
+		}
+		// the value must not be mutated through the pointer either: no destination-receiver call on it
+		for _, fn := range w.ModuleFuncs() {
+			for _, cI := range CallsIn(fn) {
+				if rv, mut := mutatesZ(cI.Common()); mut && rv != nil {
+					if l2, ok := stripConv(rv).(*ssa.UnOp); ok && l2.Op == token.MUL && l2.X == ssa.Value(g) {
+						return false
+					}
+				}
+			}
+		}
+		return n == 1
+	}
+	return false
+}
+
+// configHasNoBaseFee: v is a vm.Config composite literal (or a load of one) whose NoBaseFee field is stored true.
+func (w *World) configHasNoBaseFee(v ssa.Value) bool {
+	v = stripConv(v)
+	if ld, ok := v.(*ssa.UnOp); ok && ld.Op == token.MUL {
+		v = ld.X
+	}
+	a, ok := v.(*ssa.Alloc)
+	if !ok || a.Referrers() == nil {
+		return false
+	}
+	for _, ref := range *a.Referrers() {
+		fa, ok := ref.(*ssa.FieldAddr)
+		if !ok || fieldName(fa.X.Type(), fa.Field) != "NoBaseFee" || fa.Referrers() == nil {
+			continue
+		}
+		for _, r2 := range *fa.Referrers() {
+			if st, ok := r2.(*ssa.Store); ok {
+				if c, isC := st.Val.(*ssa.Const); isC && c.Value != nil && c.Value.ExactString() == "true" {
+					return true
+				}
+			}
+		}
+	}
+	return false
 }
